@@ -296,6 +296,10 @@ ptrId(const void *p) {
  *          32 use the *String wrapper, 64 use lou_translatePrehyphenated (no hyphen arrays),
  *          128 request the applied-rule trace (via _lou_translate/_lou_backTranslate)
  *          256 pass a separate display table (next token after spacing) */
+/* HOOK inslack N: the last N elements of the input token belong to the caller's array but not to the declared
+ * input (the text is a prefix of a longer buffer, which is ordinary use): *inlen is passed as length - N */
+static int inSlack = 0;
+
 static void
 doTranslate(int back, char **tok, int ntok) {
 	const char *list;
@@ -321,6 +325,7 @@ doTranslate(int back, char **tok, int ntok) {
 	if (haveCursor) cursor = atoi(tok[4]);
 	argmask = atoi(tok[5]);
 	inlen = parseWide(tok[6], &in);
+	if (inSlack > 0 && inlen > inSlack) inlen -= inSlack;
 	origInlen = inlen;
 	outlen = outcap;
 	out = malloc((outcap > 0 ? outcap : 0) * sizeof(widechar));
@@ -691,6 +696,8 @@ main(int argc, char **argv) {
 				tickBudget = atol(tok[2]);
 			else if (!strcmp(tok[1], "ticks"))
 				tickRecord = atoi(tok[2]);
+			else if (!strcmp(tok[1], "inslack"))
+				inSlack = atoi(tok[2]);
 			printf("OK\n");
 		} else if (!strcmp(tok[0], "CWD") && ntok >= 2) {
 			printf(chdir(tok[1]) == 0 ? "OK\n" : "FAIL\n");
